@@ -96,12 +96,19 @@ def oracle(root, out=None):
     cm2 = m2 - m1 ** 2; cm3 = m3 - 3 * m1 * m2 + 2 * m1 ** 3
     cm4 = m4 - 4 * m1 * m3 + 6 * m1 ** 2 * m2 - 3 * m1 ** 4
     for j in range(len(m1)):
-        if cm2[j] < 1e-3 * (1 + abs(m2[j])):
+        # conditioning is RELATIVE (a variable of tiny scale is as well conditioned as one of unit scale): the
+        # cancellation error of a central moment is ~1e-5 (single-precision parameters) times the size of its terms
+        t2 = abs(m2[j]) + m1[j] ** 2
+        t3 = abs(m3[j]) + 3 * abs(m1[j] * m2[j]) + 2 * abs(m1[j]) ** 3
+        t4 = abs(m4[j]) + 4 * abs(m1[j] * m3[j]) + 6 * m1[j] ** 2 * abs(m2[j]) + 3 * m1[j] ** 4
+        if not cm2[j] > 1e-4 * t2:
             continue
         ref = dict(var=cm2[j], skew=cm3[j] / cm2[j] ** 1.5, kurt=cm4[j] / cm2[j] ** 2 - 3.0)
+        noise = dict(var=1e-5 * t2, skew=1e-5 * t3 / cm2[j] ** 1.5, kurt=1e-5 * t4 / cm2[j] ** 2)
         for key in ("var", "skew", "kurt"):
-            scale = (abs(m4[j]) + abs(m1[j]) ** 4 + 1) / cm2[j] ** 2
-            if abs(out[key][j] - ref[key]) > 2e-2 * (1 + abs(ref[key])) + 1e-4 * scale:
+            if noise[key] > 0.25 * (1 + abs(ref[key])):
+                continue                                   # too ill-conditioned to judge
+            if not abs(out[key][j] - ref[key]) <= 2e-2 * abs(ref[key]) + 2e-2 * (key != "var") + 4 * noise[key]:
                 return dict(what=f"{key} differs from its textbook definition on the implementation's own raw moments",
                             var=j, impl=out[key][j], ref=float(ref[key]))
     if out["order0"] != [1.0] * len(out["order0"]):
@@ -111,8 +118,26 @@ def oracle(root, out=None):
     return None
 
 
+def small_scale_cases():
+    """well-conditioned variables of tiny variance (rare events, narrow densities centred at 0, a scaled-down mixture)."""
+    from deeprob.spn.structure.leaf import Bernoulli, Gaussian, Uniform
+    from deeprob.spn.structure.node import Sum, Product, assign_ids
+    out = [Bernoulli(0, p=1e-8), Gaussian(0, mean=0.0, stddev=1e-4), Uniform(0, start=0.0, width=1e-3),
+           Product(children=[Gaussian(0, mean=0.0, stddev=2e-4), Bernoulli(1, p=0.3)]),
+           Sum(children=[Gaussian(0, mean=-1e-4, stddev=1e-4), Gaussian(0, mean=2e-4, stddev=1e-4)], weights=[0.5, 0.5]),
+           Sum(children=[Product(children=[Uniform(0, start=-1e-4, width=3e-4), Bernoulli(1, p=1e-9)]),
+                         Product(children=[Gaussian(0, mean=0.0, stddev=1e-4), Bernoulli(1, p=3e-8)])], weights=[0.25, 0.75])]
+    for r in out:
+        assign_ids(r)
+    return out
+
+
 def search(seed, n=60):
     rs = np.random.RandomState(seed % (2 ** 31))
+    for root in small_scale_cases():
+        bad = oracle(root)
+        if bad:
+            return dict(circuit=G.Table(root).brief(), failure=bad)
     for i in range(n):
         root = gen_case(rs, i, "quick")
         bad = oracle(root)
@@ -155,6 +180,13 @@ def main(tier, seed, replay=None):
         dist["vars"][len(d["scope"])] = dist["vars"].get(len(d["scope"]), 0) + 1
         dist["nodes"] += d["nodes"]
     rep.cov["input_distribution"] = dist
+    # scale: well-conditioned variables of tiny variance (the exact-rational tie above runs at unit scale only)
+    if not replay:
+        for root in small_scale_cases():
+            bad = oracle(root)
+            rep.cov["small_scale_cases"] = rep.cov.get("small_scale_cases", 0) + 1
+            if bad:
+                rep.violation(dict(kind="direct-oracle-small-scale", circuit=G.Table(root).brief(), failure=bad), True)
     # python-side clauses: order 0, negative order, expectation == moment 1
     for root, tab, out in roots:
         if out["order0"] != [1.0] * len(tab.root_scope()) or out["neg"] != "ValueError" or out["exp"] != out["moms"][0]:
